@@ -366,6 +366,13 @@ func runC13(c *fw.Ctx) {
 				variants = append(variants, st.Name()+"."+sf.Name)
 			}
 		}
+		// present-but-empty lists: *FieldList and *BlockStmt children
+		for k := 0; k < st.NumField(); k++ {
+			sf := st.Field(k)
+			if sf.Type == reflect.TypeOf((*dst.FieldList)(nil)) || sf.Type == reflect.TypeOf((*dst.BlockStmt)(nil)) {
+				variants = append(variants, "empty:"+st.Name()+"."+sf.Name)
+			}
+		}
 		for _, omit := range variants {
 			i := idx
 			idx++
@@ -375,6 +382,9 @@ func runC13(c *fw.Ctx) {
 			id := "fill:" + st.Name() + "/omit=" + omit
 			c.Case(id, func() {
 				fl := &gen.Filler{Omit: omit}
+				if strings.HasPrefix(omit, "empty:") {
+					fl = &gen.Filler{Empty: strings.TrimPrefix(omit, "empty:")}
+				}
 				n := fl.Fill(t, 3)
 				c13CheckTree(c, id, n, c.Pick(6, 40))
 				c.Count("filled_trees", 1)
